@@ -272,9 +272,8 @@ impl<T, U> Framed<T, U> {
         T: AsyncWrite,
         U: Encoder<I>,
     {
-        let mut this = self.as_mut().project();
-        ready!(this.io.as_mut().poll_flush(cx))?;
-        ready!(this.io.as_mut().poll_shutdown(cx))?;
+        ready!(self.as_mut().flush(cx))?;
+        ready!(self.project().io.poll_shutdown(cx))?;
         Poll::Ready(Ok(()))
     }
 }
